@@ -62,9 +62,11 @@ def mode_table(ctx):
             raise AnalysisError('undecidable shape: _get_serialize_and_deserialize returns %s' % A.short(r.value))
         mode = None
         for test, branch in flow.guards_of(r, fn):
-            if isinstance(test, ast.Compare) and A.is_name(test.left, param) and isinstance(test.ops[0], ast.Eq) \
-                    and branch and isinstance(test.comparators[0], ast.Constant):
-                mode = test.comparators[0].value
+            t, neg = A.strip_not(test)
+            eff = (branch != neg)
+            if isinstance(t, ast.Compare) and A.is_name(t.left, param) and isinstance(t.comparators[0], ast.Constant) \
+                    and len(t.ops) == 1 and ((isinstance(t.ops[0], ast.Eq) and eff) or (isinstance(t.ops[0], ast.NotEq) and not eff)):
+                mode = t.comparators[0].value
         table[mode] = (_classify_fn(r.value.elts[0], core), _classify_fn(r.value.elts[1], core), r)
     return table, fn
 
@@ -210,12 +212,17 @@ def rule_s4_s5(ctx, table):
                 and not isinstance(n.targets[0], ast.Tuple):
             cls_fn = _classify_fn(n.value, core)
             modes = None
-            for test, branch in flow.guards_of(n, init):
-                if isinstance(test, ast.Compare) and A.is_name(test.left, mparam) and branch and \
-                        isinstance(test.ops[0], ast.Eq) and isinstance(test.comparators[0], ast.Constant):
+            for test0, branch in flow.guards_of(n, init):
+                test, neg = A.strip_not(test0)
+                effb = (branch != neg)
+                if not (isinstance(test, ast.Compare) and A.is_name(test.left, mparam) and len(test.ops) == 1
+                        and isinstance(test.comparators[0], ast.Constant)):
+                    continue
+                is_eq = (isinstance(test.ops[0], ast.Eq) and effb) or (isinstance(test.ops[0], ast.NotEq) and not effb)
+                is_ne = (isinstance(test.ops[0], ast.NotEq) and effb) or (isinstance(test.ops[0], ast.Eq) and not effb)
+                if is_eq:
                     modes = [test.comparators[0].value]
-                elif isinstance(test, ast.Compare) and A.is_name(test.left, mparam) and branch and \
-                        isinstance(test.ops[0], ast.NotEq) and isinstance(test.comparators[0], ast.Constant):
+                elif is_ne:
                     modes = [m for m in eff if m != test.comparators[0].value]
             for m in (modes if modes is not None else list(eff)):
                 if m in eff:
